@@ -805,6 +805,11 @@ def guard_fingerprint(f, bb):
     for sw in D.enum_switches(f):
         if not f.dominates(sw["bb"], bb) or sw["bb"] == bb:
             continue
+        # the exhausted/not-exhausted test of an iterator loop is control structure, not a guard of the data
+        pl = sw["place"]
+        dd = f.single_def(pl["l"]) if not pl["p"] else None
+        if dd is not None and dd[1] == "term" and (M.callee_name(dd[2]) or "").endswith(("::next", "::next_back")):
+            continue
         for tgt, names in sw["by_target"].items():
             if bb in D.edge_dominated(f, sw["bb"], tgt):
                 out.add("%s is %s" % (D.short_ty(sw["ety"]), "|".join(sorted(names))))
